@@ -529,6 +529,17 @@ def _check_calls(prog: Program, res: Result):
     def is_max_of_axis(node, axis_pos):
         """node is max(<coordinate list of axis axis_pos of zip(*R)>) with R = determine_largest_rectangle(property_boundary)"""
         v = defs.get(node.id) if isinstance(node, ast.Name) else node
+
+        def is_rect(r):
+            r = defs.get(r.id) if isinstance(r, ast.Name) else r
+            return isinstance(r, ast.Call) and attr_chain(r.func) == "determine_largest_rectangle" and len(r.args) == 1 and ast.unparse(r.args[0]) == "property_boundary"
+
+        # max(c[k] for c in R)  /  max([c[k] for c in R]): the same maximum over the corners, taken without unzipping
+        if isinstance(v, ast.Call) and attr_chain(v.func) == "max" and len(v.args) == 1 and isinstance(v.args[0], (ast.GeneratorExp, ast.ListComp)):
+            g = v.args[0]
+            return (len(g.generators) == 1 and not g.generators[0].ifs and isinstance(g.generators[0].target, ast.Name) and is_rect(g.generators[0].iter)
+                    and isinstance(g.elt, ast.Subscript) and isinstance(g.elt.value, ast.Name) and g.elt.value.id == g.generators[0].target.id
+                    and isinstance(g.elt.slice, ast.Constant) and g.elt.slice.value == axis_pos)
         if not (isinstance(v, ast.Call) and attr_chain(v.func) == "max" and len(v.args) == 1 and isinstance(v.args[0], ast.Name)):
             return False
         u = unpack.get(v.args[0].id)
